@@ -396,7 +396,10 @@ pub fn gen_arg(rng: &mut Rng, id: &str, positional: bool, cfg: &GenCfg, ids: &[S
     a
 }
 
-pub fn gen_cmd(rng: &mut Rng, cfg: &GenCfg, depth: usize, name: &str) -> CmdS {
+pub fn gen_cmd(rng: &mut Rng, cfg: &GenCfg, depth: usize, name: &str) -> CmdS { gen_cmd_in(rng, cfg, depth, name, &[]) }
+
+/// `inherited`: ids of global args defined by ancestors (valid relation targets at this level)
+pub fn gen_cmd_in(rng: &mut Rng, cfg: &GenCfg, depth: usize, name: &str, inherited: &[String]) -> CmdS {
     let mut c = CmdS { name: name.to_string(), ..Default::default() };
     let nopt = rng.below(5);
     let npos = match rng.below(6) { 0 | 1 => 0, 2 | 3 => 1, 4 => 2, _ => 3 };
@@ -404,7 +407,8 @@ pub fn gen_cmd(rng: &mut Rng, cfg: &GenCfg, depth: usize, name: &str) -> CmdS {
     let mut used = vec![];
     for (i, id) in ids.iter().enumerate() {
         let positional = i >= nopt;
-        let mut a = gen_arg(rng, id, positional, cfg, &ids, &mut used);
+        let targets: Vec<String> = ids.iter().cloned().chain(inherited.iter().cloned()).collect();
+        let mut a = gen_arg(rng, id, positional, cfg, &targets, &mut used);
         if positional {
             let is_last_pos = i + 1 == ids.len();
             if !is_last_pos { // earlier positionals: single value mostly
@@ -442,7 +446,8 @@ pub fn gen_cmd(rng: &mut Rng, cfg: &GenCfg, depth: usize, name: &str) -> CmdS {
         let n = 1 + rng.below(2);
         for k in 0..n {
             let nm = format!("sub{}{}", depth + 1, if k == 0 { "" } else { "b" });
-            let mut sc = gen_cmd(rng, cfg, depth + 1, &nm);
+            let inh: Vec<String> = inherited.iter().cloned().chain(c.args.iter().filter(|a| a.global).map(|a| a.id.clone())).collect();
+            let mut sc = gen_cmd_in(rng, cfg, depth + 1, &nm, &inh);
             if rng.chance(1, 3) { sc.aliases.push(format!("s{}{}", depth + 1, k)); }
             if cfg.flagsubs && rng.chance(1, 3) {
                 let f = *rng.pick(&['S', 'Q', 'R']);
